@@ -395,7 +395,10 @@ func valueFromAST(valueAST ast.Value, ttype Input, variables map[string]interfac
 			var value interface{}
 			if of, ok = fieldASTs[name]; ok {
 				value = valueFromAST(of.Value, field.Type, variables)
-			} else {
+			}
+			// the default also applies when the field is given as a
+			// variable that was not provided
+			if isNullish(value) {
 				value = field.DefaultValue
 			}
 			if !isNullish(value) {
